@@ -44,12 +44,17 @@ ENTRY = dict(
                    "and every valid map choice yields zero resets (c19_separated_no_reset); (5) the three passes keep the Herbrand term of every classical "
                    "bit (C12) and the repair step keeps the term of every classical bit the appended suffix does not write. The `move` basis "
                    "table and the call order are regenerated from the source and pinned by reflexivity. Closed under the global context. "
-                   "The model is run against >600 real subexperiments per run (pre-pass circuit rebuilt through the private functions).",
+                   "The model is run against >600 real subexperiments per run (pre-pass circuit rebuilt through the private functions). "
+                   "Stream moves_fresh_descending (plus three fixed problems): fresh hand-placed Moves that all go from a HIGHER onto a LOWER "
+                   "qubit index (never produced by cut_wires), cut through the public cut_gates wrapper, unseparated and automatic "
+                   "partitions, identity on the sources.",
         level_note=STD_NOTE + "No axioms. The model describes the REPAIRED behaviour (DESIGN section 6, F2: final resets are removed before the "
                    "placeholder measurement is appended); on the unrepaired tree the fact obligation on the call order and the correspondence "
                    "both fail and the judged replay is an identity-sub-observable input. 'Values unaffected' is equality of Herbrand terms "
                    "(modelling assumption M1); that the placeholder bit is masked out of every observable is C11's c11_dummy, cited, not "
-                   "re-proved here.",
+                   "re-proved here. The judge decides 'no qubit is re-used' on the problem as STATED (plain Move(source, destination) "
+                   "instructions, recorded before cut_gates rewrites them) as well as on the circuit handed to generate_cutting_experiments: if "
+                   "either has no re-use, any surviving reset is a judged violation, so a wrapper that re-orders a placeholder's qubits is caught.",
         assumptions=[
             "RIDER to clause 1 ('whatever the observables'): c19_no_reset is proved for observable groups whose measured qubits avoid every "
             "Move source (suffix_avoids_sources; kind: input precondition). The hypothesis is necessary - c19_ex_obs_on_source: with Z on a "
@@ -116,7 +121,8 @@ ENTRY = dict(
             "c19_no_reset (part of no_reuse); observables acting on a Move source are excluded by suffix_avoids_sources",
             "M1 (Herbrand adequacy) for the value statements; well-formedness (indices in range, Reset one qubit, Measure one qubit one "
             "clbit) is a hypothesis there; conditional/control-flow instructions are outside the model",
-            "the judge decides 'no re-use' independently in Python on the pre-partition circuit: every Move destination untouched "
+            "the judge decides 'no re-use' independently in Python on the pre-partition circuit AND on the stated problem (plain Moves, "
+            "before cut_gates): every Move destination untouched "
             "before, every source untouched afterwards, no observable letter on a source, no reset in the circuit",
         ],
     )
